@@ -326,7 +326,7 @@ def main(run):
         t1_problems = [f"T1 reader failed: {ex!r}"]
 
     # T3
-    n = 300 if quick else 2000
+    n = 300 if quick else 5000
     cases = build_cases(run, "complex", n, run.seed) + build_cases(run, "real", n, run.seed)
     for c in cases:
         run.count_case((c.mode, repr(c.inp)))
